@@ -242,6 +242,11 @@ def layer_table():
   for n, c in co.items():
     if is_quantizer_class(c) or n in NOT_LAYER_SPECS:
       continue
+    if not (inspect.isclass(c) and issubclass(c, tf.keras.layers.Layer)) or n not in SAMPLE_ARGS:
+      # not a layer class (e.g. a plain function registered by name) or a class this file has no
+      # sample arguments for: nothing to tabulate; the key itself is reported by the comparison of
+      # the table's key list
+      continue
     ps = sig_params(c)
     ps = ps + forwarded_params(c, co, SAMPLE_ARGS[n])
     pnames = [p[0] for p in ps]
@@ -264,8 +269,17 @@ def layer_table():
   return out
 
 
+def keras_activation_names():
+  """the names `tf.keras.activations.get` resolves on its own (public functions of the module)"""
+  import tensorflow as tf
+  return sorted(n for n in dir(tf.keras.activations)
+                if not n.startswith("_") and callable(getattr(tf.keras.activations, n))
+                and n not in ("get", "serialize", "deserialize"))
+
+
 def live_tables():
-  return {"quantizers": quantizer_table(), "layers": layer_table(), "custom_objects": list(custom_objects().keys())}
+  return {"quantizers": quantizer_table(), "layers": layer_table(), "custom_objects": list(custom_objects().keys()),
+          "keras_activation_names": keras_activation_names()}
 
 
 # ----------------------------------------------------------------------------- Lean emission
@@ -353,8 +367,11 @@ def emit_lean(t):
   o.append("def lSpecs : List LSpec :=\n  [%s]\n" % ", ".join("ls_" + l["name"] for l in t["layers"]))
   o.append("/-- keys of `_add_supported_quantized_objects`, in insertion order -/\n"
            "def customObjects : List String :=\n  [%s]\n" % ", ".join(lean_str(k) for k in t["custom_objects"]))
+  o.append("/-- the built-in activation names of Keras (public functions of `tf.keras.activations`) -/\n"
+           "def kerasActivationNames : List String :=\n  [%s]\n" % ", ".join(lean_str(k) for k in t["keras_activation_names"]))
   o.append("/-- the environment of the real library; `clipBound` stays a parameter -/\n"
-           "def env (clipBound : QVal → PyVal) : Env :=\n  { qspecs := qSpecs, lspecs := lSpecs, customObjects := customObjects, clipBound := clipBound }\n")
+           "def env (clipBound : QVal → PyVal) : Env :=\n  { qspecs := qSpecs, lspecs := lSpecs, customObjects := customObjects, clipBound := clipBound,\n"
+           "    kerasNames := kerasActivationNames }\n")
   o.append("end QKV.LC\n")
   return "\n".join(o)
 
